@@ -1603,6 +1603,22 @@ impl<'ast> LoweringContext<'ast> {
                 .lower_out_type(ty, &mut return_ltl, in_path, false, false)
                 .map(|ty| ReturnType::Infallible(SuccessType::OutType(ty))),
         }
+        .and_then(|r_ty| {
+            // The string written to a `DiplomatWrite` parameter *is* the success value of the
+            // method: such a parameter is only representable next to `()`, `Result<(), E>` or
+            // `Option<()>`. With any other success type the parameter would silently vanish from
+            // the HIR while the macro still expects it.
+            let success = match &r_ty {
+                ReturnType::Infallible(s) | ReturnType::Fallible(s, _) | ReturnType::Nullable(s) => s,
+            };
+            if takes_write && !matches!(success, SuccessType::Write) {
+                self.errors.push(LoweringError::Other(
+                    "Methods taking a DiplomatWrite must return (), Result<(), E> or Option<()>".into(),
+                ));
+                return Err(());
+            }
+            Ok(r_ty)
+        })
         .map(|r_ty| (r_ty, return_ltl.finish()))
     }
 
